@@ -715,3 +715,18 @@ def tie_extrema(m, seed=0):
             if b is not None:
                 b[(0,) * (b.ndim - 1) + (f,)] = lo
     return m
+
+
+def zero_fine(m, seed=0):
+    """Make every second box of the levels above 0 hold only 0.0 (or only -0.0) in every second field,
+    over coarse data that is not zero (a tracer reset on the fine level, coarse levels not averaged
+    down): the finest covering data there ARE the zeros"""
+    rng = np.random.default_rng(seed)
+    n = 0
+    for lv in range(1, m.nlevels):
+        for bi in range(0, len(m.data[lv]), 2):
+            a = m.data[lv][bi] = np.array(m.data[lv][bi], dtype=np.float64, order="F", copy=True)
+            for f in range(0, a.shape[-1], 2):
+                a[..., f] = -0.0 if rng.random() < 0.5 else 0.0
+                n += 1
+    return n
